@@ -316,7 +316,37 @@ def tie_policy(ctx):
     if restores and not same:
         ctx.violate("policy-restore vandal-pass", f"after a pass that mutated the graph and raised, the default policy returned {after} instead of the input {before}",
                     {"kind": "policy_restore", "before": before, "after": str(after)})
-    ctx.coverage["policy_restores_input"] = {"flag": restores, "vandal_pass_left_model_intact": bool(same)}
+    # the same for FUNCTION bodies: a function-scoped pass that mutates an @onnx_function body and raises
+    fn_same = None
+    try:
+        from jax2onnx import to_onnx
+        import extra_programs as xp
+        irm = to_onnx(xp.outer_fn, [(2, 3)], return_mode="ir")
+        if len(irm.functions):
+            ref_bytes = ir.to_proto(irm).SerializeToString(deterministic=True)
+
+            def fn_vandal(graph):
+                nodes = list(graph)
+                victim = next((n for n in nodes if len(n.inputs) >= 1 and n.inputs[0] is not None and len(n.outputs) == 1), None)
+                if victim is not None:
+                    ir.convenience.replace_all_uses_with(victim.outputs[0], victim.inputs[0], replace_graph_outputs=True)
+                    graph.remove(victim)
+                raise RuntimeError("injected after mutating a function body")
+            try:
+                opt._OPTIMIZER_PASSES = (opt._OptimizerPass(name="fn_vandal", model_runner=None, graph_runner=None, function_graph_runner=fn_vandal),)
+                capi._optimize_graph_with_failure_policy(irm, strict_optimizer_failures=False)
+                fn_same = ir.to_proto(irm).SerializeToString(deterministic=True) == ref_bytes
+            except Exception as e:  # noqa
+                fn_same = False
+            finally:
+                opt._OPTIMIZER_PASSES = saved
+            if restores and not fn_same:
+                ctx.violate("policy-restore vandal-pass function-body",
+                            "after a function-scoped pass that mutated an @onnx_function body and raised, the default policy returned a model whose serialisation "
+                            "differs from the input (function bodies were not restored)", {"kind": "policy_restore_fn", "program": "x:nested_onnx_functions"})
+    except Exception as e:  # noqa
+        ctx.coverage["policy_restore_fn_error"] = f"{type(e).__name__}: {str(e)[:120]}"
+    ctx.coverage["policy_restores_input"] = {"flag": restores, "vandal_pass_left_model_intact": bool(same), "function_body_vandal_left_model_intact": fn_same}
 
 
 # ------------------------------------------------------------------ real-code sweeps
